@@ -200,6 +200,8 @@ func runC14(p *Prog, r *Report) {
 	c14R2(p, r, fi)
 	c14R3(p, r)
 	c14R4(p, r)
+	parseOptsOutputPkgRule(p, r, "C14.R5")
+	noMemoParseRule(p, r, "C14.R6")
 }
 
 // guardSpec: a validation that must exist in method.Parse as `if COND { return nil, <error> }`.
